@@ -40,11 +40,13 @@
 (*     two top binades (>= 2^(emax-1)), where Dekker's product or 2Sum can *)
 (*     overflow internally.                                                *)
 (*  L4 the sign of a zero result is free (Ord(+0) = Ord(-0)).              *)
-(*  A failure of fma_1ulp with |x*y| >= 2^emax is named fma_1ulp_prodtop   *)
-(*  (the fix_overflow fallback of Dekker's product lives there), otherwise *)
-(*  one with |x*y+z| >= 2^emax is named fma_1ulp_restop (RN(x*y)+z can     *)
-(*  overflow although x*y+z does not), so that these two corners are keyed *)
-(*  apart from every other failure of the clause.                          *)
+(*  A failure of fma_1ulp with |x*y| >= 2^emax whose result is what the     *)
+(*  documented fallback gives (fl(x*y) + z rounded once, within 1 ulp) is  *)
+(*  named fma_1ulp_prodtop, otherwise one with |x*y+z| >= 2^emax whose     *)
+(*  result is the infinity that fl(x*y) + z overflows to is named          *)
+(*  fma_1ulp_restop, so that these two known behaviours are keyed apart    *)
+(*  from every other failure of the clause - including other failures in   *)
+(*  the same corners.                                                      *)
 (***************************************************************************)
 EXTENDS IEEE
 
@@ -119,14 +121,22 @@ ProdTop(f, x, y) == DLe(TopD(f, 0), DAbs(DMul(Val(f, x), Val(f, y))))
 ResTop(f, x, y, z) == DLe(TopD(f, 0), DAbs(FMAExact(f, x, y, z)))
 NearOverflow(f, x, y, z) ==                           \* L3
   \E d \in {DMul(Val(f, x), Val(f, y)), Val(f, z), FMAExact(f, x, y, z)} : DLe(TopD(f, 1), DAbs(d))
+\* The two top-of-range corners are keyed apart only when the result shows the documented fallback itself
+\* (Dekker's product falls back to (fl(x*y), 0) when the product of the high parts overflows): the result is
+\* what fl(x*y) + z gives when rounded once - within 1 ulp of it if finite, the same infinity otherwise.
+\* Any other result in these corners (a NaN, an infinity where fl(x*y) + z is finite, ...) is a plain fma_1ulp.
+FallbackSum(f, x, y, z) == RN(f, DAdd(Val(f, RN(f, DMul(Val(f, x), Val(f, y)))), Val(f, z)))
+FallbackLike(f, x, y, z, r) == LET s == FallbackSum(f, x, y, z)
+                               IN  IF IsFinite(f, s) THEN WithinR(f, r, s, 1) ELSE r = s
+FallbackInf(f, x, y, z, r) == LET s == FallbackSum(f, x, y, z) IN ~IsFinite(f, s) /\ r = s
 \* fo: the fix_overflow option of the variant that produced r; dom = FmaDomain(f, x, y, z) and
 \* rn = RN(f, FMAExact(f, x, y, z)) are passed in so that a caller judging many variants on the
 \* same operands evaluates them once
 FmaFailsC(f, x, y, z, dom, rn, r, fo) ==
   IF ~dom \/ WithinR(f, r, rn, 1) THEN {}
   ELSE IF ~fo /\ ~IsFinite(f, r) /\ NearOverflow(f, x, y, z) THEN {}
-  ELSE IF ProdTop(f, x, y) THEN {"fma_1ulp_prodtop"}
-  ELSE IF ResTop(f, x, y, z) THEN {"fma_1ulp_restop"} ELSE {"fma_1ulp"}
+  ELSE IF ProdTop(f, x, y) /\ FallbackLike(f, x, y, z, r) THEN {"fma_1ulp_prodtop"}
+  ELSE IF ResTop(f, x, y, z) /\ FallbackInf(f, x, y, z, r) THEN {"fma_1ulp_restop"} ELSE {"fma_1ulp"}
 FmaFails(f, x, y, z, r, fo) ==
   FmaFailsC(f, x, y, z, FmaDomain(f, x, y, z), RN(f, FMAExact(f, x, y, z)), r, fo)
 
